@@ -9,7 +9,7 @@ CONSTANTS
   GMaps <- MC_GMaps
   RootUid <- MC_RootUid
   TestUid <- MC_TestUid
-  MaxOps = 5
+  MaxOps = 4
   Bugs <- D_11111
   Known <- D_11111
   WithPersist = TRUE
